@@ -53,6 +53,14 @@ func accessPath(v ssa.Value) (ssa.Value, string) {
 			v = x.X
 		case *ssa.ChangeInterface:
 			v = x.X
+		case *ssa.TypeAssert:
+			v = x.X
+		case *ssa.Extract:
+			if ta, ok := x.Tuple.(*ssa.TypeAssert); ok && x.Index == 0 {
+				v = ta.X
+				continue
+			}
+			return v, joinRev(steps)
 		case *ssa.BinOp:
 			// pointer arithmetic through uintptr: keep the pointer operand
 			if x.Op == token.ADD || x.Op == token.SUB {
@@ -110,8 +118,9 @@ func derefStruct(t types.Type) *types.Struct {
 }
 
 func derefNamed(t types.Type) *types.Named {
+	t = types.Unalias(t)
 	if p, ok := t.(*types.Pointer); ok {
-		t = p.Elem()
+		t = types.Unalias(p.Elem())
 	}
 	n, _ := t.(*types.Named)
 	return n
@@ -977,11 +986,8 @@ func structFields(st *types.Struct, pred func(types.Type) bool) []string {
 }
 
 func isNamedType(t types.Type, pkgPath, name string) bool {
-	if p, ok := t.(*types.Pointer); ok {
-		t = p.Elem()
-	}
-	n, ok := t.(*types.Named)
-	if !ok || n.Obj().Pkg() == nil {
+	n := derefNamed(t)
+	if n == nil || n.Obj().Pkg() == nil {
 		return false
 	}
 	return n.Obj().Pkg().Path() == pkgPath && n.Obj().Name() == name
